@@ -80,7 +80,17 @@ pub fn families(prop: &str, tier: Tier) -> Vec<Cfg> {
             c.max_conns = 3;
             c.max_reqs = 3;
             c.dev = 2;
-            vec![a, b, c]
+            // the broker's Maximum Packet Size differs from connection to connection
+            let mut d = Cfg::base("C02-maximum-packet-size-changes-between-connections");
+            d.props = vec!["C02"];
+            d.ops = vec![OpK::Pub1, OpK::Poll, OpK::DropConn];
+            d.io = IoMenu::benign();
+            d.broker.max_packet = vec![None, Some(9), Some(64)];
+            d.max_ops = if q { 7 } else { 9 };
+            d.max_conns = if q { 3 } else { 4 };
+            d.max_reqs = 2;
+            d.dev = 0;
+            vec![a, b, c, d]
         }
         "C03" => {
             let mut a = Cfg::base("C03-qos2-orders-and-crashes");
@@ -184,6 +194,7 @@ pub fn families(prop: &str, tier: Tier) -> Vec<Cfg> {
             c.ops = vec![OpK::Pub1, OpK::Pub2, OpK::Poll, OpK::DropConn];
             c.io = IoMenu::benign();
             c.broker.receive_max = vec![Some(2), Some(1), Some(3)];
+            c.pub_retain = vec![false, true];
             c.max_ops = if q { 7 } else { 9 };
             c.max_conns = 2;
             c.max_reqs = if q { 3 } else { 4 };
